@@ -157,6 +157,15 @@ void *cmi_coroutine_start(struct cmi_coroutine *cp, void *msg)
 {
     cmb_assert_release(cp != NULL);
     cmb_assert_release(cp->status != CMI_COROUTINE_RUNNING);
+
+    /*
+     * The dummy main coroutine is per thread. This thread may be starting a
+     * coroutine that another thread has initialized, and have none yet.
+     */
+    if (coroutine_main == NULL) {
+        create_main();
+    }
+
     cmb_assert_debug(coroutine_current != NULL);
 
     /* Prepare the stack for launching the coroutine function */
